@@ -5,21 +5,31 @@ From V Require Import StreamsMap.Model StreamsMap.RunGlue.
 Import ListNotations.
 Open Scope Z_scope.
 
-Lemma handle_packet_first_error : forall pre s s1 f o s2 e fr rest,
-  handle_packet s pre = (s1, None) -> gframe_op f = Some o -> tstep s1 o = (s2, RErr e, fr) ->
-  handle_packet s (pre ++ f :: rest) = (s2, Some e).
+Lemma handle_packet_first_error : forall pre g g1 fr0 f o s2 e fr rest,
+  handle_packet g pre = (g1, None, fr0) -> gframe_op f = Some o ->
+  tstep (g_sm g1) o = (s2, RErr e, fr) ->
+  handle_packet g (pre ++ f :: rest) =
+    (mkG s2 (g_cancel g1) (g_final g1) (g_done g1) (g_nextA g1), Some e, fr0 ++ fr).
 Proof.
-  induction pre as [|g pre IH]; intros s s1 f o s2 e fr rest H G T; cbn [app handle_packet] in *.
-  - injection H as H. subst s1. rewrite G, T. reflexivity.
-  - destruct (gframe_op g) as [og|]; [|eapply IH; eauto].
-    destruct (tstep s og) as [[s' x] f0]. destruct x; try (eapply IH; eauto).
-    discriminate.
+  induction pre as [|p pre IH]; intros g g1 fr0 f o s2 e fr rest H G T; cbn [app handle_packet] in *.
+  - injection H as H1 H2. subst g1 fr0. rewrite G, T. reflexivity.
+  - destruct (gframe_op p) as [op|]; [|eapply IH; eauto].
+    destruct (tstep (g_sm g) op) as [[s' x] f1].
+    assert (K : forall g2 fr2,
+      (let '(g3, e0, fr3) := handle_packet g2 pre in (g3, e0, f1 ++ fr2 ++ fr3)) = (g1, None, fr0) ->
+      (let '(g3, e0, fr3) := handle_packet g2 (pre ++ f :: rest) in (g3, e0, f1 ++ fr2 ++ fr3)) =
+      (mkG s2 (g_cancel g1) (g_final g1) (g_done g1) (g_nextA g1), Some e, fr0 ++ fr)).
+    { intros g2 fr2 H2. destruct (handle_packet g2 pre) as [[g3 e3] fr3] eqn:HP.
+      injection H2 as E1 E2 E3. subst g3 e3 fr0.
+      rewrite (IH _ _ _ _ _ _ _ _ rest HP G T). rewrite <- !app_assoc. reflexivity. }
+    destruct x; try discriminate; try (apply K; exact H);
+      destruct (gframe_final p); try (apply K; exact H);
+      match goal with H : (let '(_, _) := ?M in _) = _ |- _ => destruct M as [g2 fr2] end; apply K; exact H.
 Qed.
 
-(** frames behind the failing one have no effect at all: same verdict, same state *)
-Lemma handle_packet_rest_irrelevant : forall pre s s1 f o s2 e fr rest rest',
-  handle_packet s pre = (s1, None) -> gframe_op f = Some o -> tstep s1 o = (s2, RErr e, fr) ->
-  handle_packet s (pre ++ f :: rest) = handle_packet s (pre ++ f :: rest').
-Proof.
-  intros. erewrite !handle_packet_first_error; eauto.
-Qed.
+(** frames behind the failing one have no effect at all: same verdict, same state, same frames *)
+Lemma handle_packet_rest_irrelevant : forall pre g g1 fr0 f o s2 e fr rest rest',
+  handle_packet g pre = (g1, None, fr0) -> gframe_op f = Some o ->
+  tstep (g_sm g1) o = (s2, RErr e, fr) ->
+  handle_packet g (pre ++ f :: rest) = handle_packet g (pre ++ f :: rest').
+Proof. intros. erewrite !handle_packet_first_error; eauto. Qed.
